@@ -1,7 +1,7 @@
 import DracoProofs.GeneratedCore
 import DracoModel.BitCoders
 /-
-  DracoProofs.GeneratedBits — `ReverseBits32` and `CountOneBits32` (core/bit_utils.h) of lean/Generated/Funcs.lean
+  DracoProofs.GeneratedBits — `ReverseBits32`, `CountOneBits32` and `CopyBits32` (core/bit_utils.h) of lean/Generated/Funcs.lean
   (translated from clang's AST of /repo on every run by tools/vlib/xlate.py) equal the model's `reverseBits32` /
   `countOneBits32` (DracoModel/BitCoders.lean), through a bridge between the C bit operations on `Int` and the
   `Nat` bit operations of the model.
@@ -121,5 +121,46 @@ theorem CountOneBits32_eq_model (n : Nat) (hn : n < 2^32) : CountOneBits32 (n : 
   have : r >>> 24 < 2^8 := by rw [Nat.shiftRight_eq_div_pow]; omega
   exact wrapI32_id _ (by omega) (by omega)
 
+
+/-! ### `CopyBits32` -/
+
+theorem xor_ones (m : Nat) (h : m < 2^32) : m ^^^ 0xFFFFFFFF = 2^32 - 1 - m := by
+  have h1 : (~~~ (BitVec.ofNat 32 m)).toNat = 2^32 - 1 - m := by
+    rw [BitVec.toNat_not]; simp [Nat.mod_eq_of_lt h]
+  have h2 : (~~~ (BitVec.ofNat 32 m)).toNat = m ^^^ 0xFFFFFFFF := by
+    rw [← BitVec.xor_allOnes, BitVec.toNat_xor]
+    simp [Nat.mod_eq_of_lt h]
+  omega
+
+theorem shl_wrap (a k : Nat) : wrapU32 (cShl (a : Int) (k : Int)) = (((a <<< k) % 2^32 : Nat) : Int) := by
+  unfold cShl
+  have e : ((k : Int)).toNat = k := by simp
+  rw [e, Nat.shiftLeft_eq]
+  have : (a : Int) * 2 ^ k = ((a * 2 ^ k : Nat) : Int) := by norm_cast
+  rw [this]; unfold wrapU32; omega
+
+theorem shr_nat (a k : Nat) : cShr (a : Int) (k : Int) = ((a >>> k : Nat) : Int) := by
+  unfold cShr
+  have e : ((k : Int)).toNat = k := by simp
+  rw [e, Nat.shiftRight_eq_div_pow]; norm_cast
+
+theorem CopyBits32_eq_model (dst dOff src sOff nbits : Nat) (hd : dst < 2^32) (hn : nbits ≤ 32) :
+    CopyBits32 (dst : Int) (dOff : Int) (src : Int) (sOff : Int) (nbits : Int) =
+      (copyBits32 dst dOff src sOff nbits : Int) := by
+  unfold CopyBits32 copyBits32
+  have m0 : wrapU32 (-0 - 1) = ((0xFFFFFFFF : Nat) : Int) := by decide
+  have e32 : wrapI32 (32 - (nbits : Int)) = ((32 - nbits : Nat) : Int) := by
+    rw [wrapI32_id _ (by omega) (by omega)]; omega
+  rw [m0, e32, shr_nat, shl_wrap, shr_nat, shl_wrap]
+  have hM : ((0xFFFFFFFF >>> (32 - nbits)) <<< dOff) % 2^32 < 2^32 := Nat.mod_lt _ (by decide)
+  generalize ((0xFFFFFFFF >>> (32 - nbits)) <<< dOff) % 2^32 = M at *
+  have hS : ((src >>> sOff) <<< dOff) % 2^32 < 2^32 := Nat.mod_lt _ (by decide)
+  generalize ((src >>> sOff) <<< dOff) % 2^32 = S at *
+  have en : wrapU32 (-(M : Int) - 1) = ((M ^^^ 0xFFFFFFFF : Nat) : Int) := by
+    rw [xor_ones M hM]; unfold wrapU32; omega
+  have hX : M ^^^ 0xFFFFFFFF < 2^32 := by rw [xor_ones M hM]; omega
+  dsimp only
+  rw [en, cAnd_nat 32 _ _ hd hX, cAnd_nat 32 _ _ hS hM]
+  exact cOr_nat' 32 _ _ (Nat.lt_of_le_of_lt Nat.and_le_left hd) (Nat.lt_of_le_of_lt Nat.and_le_right hM)
 
 end Draco.Generated
